@@ -134,7 +134,7 @@ Arguments required_validate {V}.
    type_core c: the declared type itself, which must be accepted;  type_result c t: the type of the value validate goes on with. *)
 Definition type_allowed (c : convkind) : list pytag :=
   match c with
-  | CBool => [TgBool]
+  | CBool => [TgBool; TgInt]      (* 0 / 1 *)
   | CStr => [TgStrNum; TgStrText]
   | CInt => [TgInt; TgBool; TgStrNum]
   | CReal => [TgFloat; TgInt; TgBool; TgStrNum; TgDecimal]
